@@ -19,7 +19,7 @@ CONFIG = {'assumptions': [
     'section names compared as bytes (ASCII names)',
     '.eh_frame of a file reached through a debug link is not compared with the stripped file (objcopy --only-keep-debug '
     'turns it into NOBITS by construction)']}
-LEVEL = {'text': 'Machine-checked, 23 theorems closed under the global context, universally quantified over the zlib oracle, '
+LEVEL = {'text': 'Machine-checked, 24 theorems closed under the global context, universally quantified over the zlib oracle, '
                  'the loader and the reader of linked files. Specification level: the view handed to DWARFInfo (configuration, 19 '
                  'section slots with content / size / address / relocation section, supplementary view) of ANY abstract file is '
                  'unchanged by gABI compression of any set of plainly stored sections (any reserved word, alignment, offset, following '
@@ -37,6 +37,10 @@ LEVEL = {'text': 'Machine-checked, 23 theorems closed under the global context, 
                  'the presence formula [C11_presence_exact(_img)]; bitwise CRC-32 = polynomial division, chunked = whole file; the model '
                  'raises ELFError on CRC mismatch, AssertionError on bad legacy framing, ELFCompressionError when the declared size '
                  'differs from the inflated size in either direction (+ the pre-d25be29 acceptance as a witnessed theorem). '
+                 'Code data tied by regeneration: the section-name tuple and DWARFInfo wiring of get_dwarf_info, the names of '
+                 'has_dwarf_info / the link section, the legacy-framing constants, the shapes of Gnu_debuglink / Dwarf_debugsup / '
+                 'Dwarf_debugaltlink and the tabulated Padding lambda are regenerated from the live code (tools/gen/gen_c11.py -> '
+                 'Gen/C11Names.v) and proved equal to what Spec and Model use [C11_gen_tables_match_spec]. '
                  'Pinned by correspondence, not proved: model = code (impl/model/spec compared three ways on every case); parse_image '
                  'vs ELFFile(); applying relocations (C08); the DWARF dump being a function of the view (full DIE/line/CFI dumps of '
                  're-encoded compiler-produced seeds are compared).',
